@@ -15,12 +15,18 @@
    Commit.WriteTo, and its decoder's verdict on prefixes against the real Commit.ReadFrom (engine wire).
    Parsers are structurally recursive on the byte list (or on fuel = its length, every frame
    consuming at least one byte), so "never hangs" holds of the model by construction.
+   [c13_real_restore_prefix]: the same for a whole snapshot with nothing left abstract but s2: the
+   state stream exactly as snapshot.go writeState lays it out (WireState.v: version, buffers per
+   block, counted blocks, each its last commit id and that many serialized buffers) followed by the
+   recorded commits; [c13_real_restore_full]: the complete file restores to exactly what was
+   written; [c13_state_bad_version]: another version is refused.  WireState's encoder and decoder
+   are diffed against real snapshots (s2 removed) parsed by the real readers (engine wire).
    NOT modelled (trusted, DESIGN.md section 7): the s2 framing around both streams.  Assumed of
    it: a prefix of its output decodes to a prefix of its input and then ends or errors.  This and
    the panic / hang freedom of the real readers are checked by the trunc engine: every prefix
    (every byte in the thorough tier) of real snapshot and log files is restored. *)
 From Coq Require Import NArith List.
-From ColumnV Require Import Wire WireCommit.
+From ColumnV Require Import Wire WireCommit WireState.
 Import ListNotations.
 Local Open Scope N_scope.
 
@@ -67,3 +73,39 @@ Theorem c13_real_commit_log_prefix : forall (cs : list commit) p,
   exists k, range_log commit_dec (length p) p = firstn k cs.
 Proof. exact real_commit_log_prefix. Qed.
 Print Assumptions c13_real_commit_log_prefix.
+
+Theorem c13_state_safe : safe state_enc state_dec state_ok.
+Proof. exact state_safe. Qed.
+Print Assumptions c13_state_safe.
+
+Theorem c13_real_restore_prefix : forall (st : state) (cs : list commit) p,
+  state_ok st -> Forall commit_ok cs ->
+  prefix_of p (state_enc st ++ log_bytes commit_enc cs) ->
+  restore_bytes state_dec commit_dec p = None \/
+  exists k, restore_bytes state_dec commit_dec p = Some (st, firstn k cs).
+Proof. exact real_restore_prefix. Qed.
+Print Assumptions c13_real_restore_prefix.
+
+Theorem c13_real_restore_full : forall (st : state) (cs : list commit),
+  state_ok st -> Forall commit_ok cs ->
+  restore_bytes state_dec commit_dec (state_enc st ++ log_bytes commit_enc cs) = Some (st, cs).
+Proof. exact real_restore_full. Qed.
+Print Assumptions c13_real_restore_full.
+
+Theorem c13_state_bad_version : forall v rest, v < 2^64 -> v <> version -> state_dec (uv64_enc v ++ rest) = Bad.
+Proof. exact state_bad_version. Qed.
+Print Assumptions c13_state_bad_version.
+
+(* non-vacuity: a state of one block with two (empty) buffers and one recorded commit *)
+Example c13_state_example :
+  let b : wbuffer := ([114; 111; 119], (0, ([], []))) in
+  let st : state := (2, [(7, [b; b])]) in
+  let c : commit := (0, (8, [])) in
+  state_ok st /\ commit_ok c /\
+  restore_bytes state_dec commit_dec (state_enc st ++ log_bytes commit_enc [c]) = Some (st, [c]) /\
+  restore_bytes state_dec commit_dec (firstn 9 (state_enc st ++ log_bytes commit_enc [c])) = None.
+Proof.
+  cbn zeta. split; [|split; [|split; vm_compute; reflexivity]].
+  - unfold state_ok, body_ok, schunk_ok, wbuffer_ok, bheaders_ok, blob_ok, u32. cbn. repeat split; try reflexivity; repeat constructor.
+  - unfold commit_ok. cbn. repeat split; try reflexivity. constructor.
+Qed.
